@@ -10,6 +10,19 @@ BASELINE_OFF = ("cd /repo && env -u CNES_PANDORA_VERIF /venv/bin/python -m pytes
 
 # id -> (technique, level text, level note, design ref)
 CLAIMED = {
+    "C05": (
+        "Exhaustive parameter table (every parameter x must-accept / must-reject / absent) plus Hypothesis-generated combined configurations vs. a documented-contract reference",
+        "Exploration with an exhaustive sub-space: each of the 35 parameters of the built-in methods takes every listed "
+        "in-domain value, every listed out-of-domain / wrong-type value and 'absent', one at a time inside a legal "
+        "pipeline; generated pipelines set, omit or break several parameters at once on mono- and multiband metadata "
+        "(band rules); generated input sections on real GeoTIFFs go through check_configuration.check_conf. Judged: "
+        "accept iff every value is in its documented domain; rejection raised by the checking call before any "
+        "processing callback runs; user keys keep value and relative position; listed defaults; user dictionary "
+        "deep-equal to its copy; re-checking the result returns it unchanged.",
+        "Trusted: pbt/ref/params.py (domains and defaults from the property text and the user guide); values the "
+        "documentation leaves open are never generated as judged values.",
+        "DESIGN.md §5 C05",
+    ),
     "C20": (
         "Exhaustive enumeration of legal step sequences x parameter grid, plus Hypothesis pipelines, vs. a restated margin function; metamorphic monotonicity",
         "Exploration with an exhaustive sub-space: every DFA-legal sequence of step kinds up to length 5 (quick) / 6 "
